@@ -979,8 +979,12 @@ HandleExpiredShard(cfg, w, sid) ==
                   IN IF HasOrder(w3, nx.order) THEN WorkerAppend(cfg, w3, sh1) ELSE WorkerAppend(cfg, w3, sh1)
     IN IF ~Good(w2) THEN w2
        ELSE IF Len(o.shards) = 1 THEN (IF o.shards[1] = sid THEN DelOrder(w2, o.id) ELSE w2)
-       ELSE LET i == IndexOf(o.shards, sid) IN
-            SetOrder(w2, [o EXCEPT !.shards = IF i = 0 THEN @ ELSE SubSeq(@, 1, i - 1) \o SubSeq(@, i + 1, Len(@))])
+       ELSE LET i == IndexOf(o.shards, sid)
+                rest == IF i = 0 THEN o.shards ELSE SubSeq(o.shards, 1, i - 1) \o SubSeq(o.shards, i + 1, Len(o.shards))
+                \* what is still listed may all belong elsewhere (shards migrating in under other orders, copied into this list
+                \* when the order was created): the order goes with its last own shard
+                own == \E j \in 1..Len(rest) : HasShard(w2, rest[j]) /\ ShardOf(w2, rest[j]).order = o.id
+            IN IF own THEN SetOrder(w2, [o EXCEPT !.shards = rest]) ELSE DelOrder(w2, o.id)
 
 \* EndBlock at the current height (sao -> node -> model), in app.go's order
 EndBlock(cfg, w) ==
@@ -1014,7 +1018,7 @@ RewardAge(cfg, w) ==
 Subsidy(cfg, w) == LET a == RewardAge(cfg, w) IN IF a >= 31 THEN 0 ELSE cfg.blockReward \div (2 ^ a)
 BlockRewardOf(cfg, w) ==
     IF w.pool.pledged = 0 \/ cfg.blockReward = 0 THEN 0
-    ELSE IF w.pool.pledged < cfg.baseline THEN Min2(Subsidy(cfg, w), (w.pool.pledged * cfg.apyNum) \div (cfg.apyDen * (cfg.halvingPeriod \div 2)))
+    ELSE IF w.pool.pledged < cfg.baseline THEN Min2(Subsidy(cfg, w), ((w.pool.pledged * cfg.apyNum) \div cfg.apyDen) \div (cfg.halvingPeriod \div 2))
     ELSE Subsidy(cfg, w)
 \* k consecutive BeginBlocks with an unchanged pool: heights h+1..h+k
 RECURSIVE BeginBlocks(_, _, _)
